@@ -70,6 +70,9 @@ def run(chk):
         for p_, v, d in zip((2, 3, 4), vv, ("1", "12", "14"))))
     VT = str(work / "v.utb")
     extra_ops["useV"] = "Y %s ;; %s" % (VT, trans.case_line("T", 4, [97, 98, 99, 97, 98, 99], 40))
+    # a rule that compiles a whole (valid) file: its verdict must not depend on the errors of earlier, unrelated calls
+    (work / "inc.uti").write_text("sign \\x2460 123456\n")
+    extra_ops["addAinc"] = "K %s | include %s" % (A, work / "inc.uti")
     name_of = {"useA": A, "useB": B, "useApfx": APFX, "useBad": BAD, "useFin": FIN, "addA": A, "addAbad": A, "addAdisp": A, "backA": A, "backB": B, "hyph": HY, "getA": A}
     keys = list(ops)
     seqs = []
@@ -80,6 +83,9 @@ def run(chk):
     ops.update(extra_ops)
     name_of["useAmissing"] = AMISS
     name_of["useV"] = VT
+    name_of["addAinc"] = A
+    for k in ("addAbad", "useBad", "useAmissing", "useFin", "useA"):
+        seqs += [[k, "addAinc"], [k, "addAinc", "useA"], ["addAinc", k, "addAinc"]]
     for k in keys:
         seqs += [["useAmissing", k], [k, "useAmissing"], [k, "useAmissing", "free"], ["useV", k, "useV"], ["useV", "free", "useV"]]
     keys = list(ops)
@@ -129,12 +135,12 @@ def run(chk):
                 continue
             opens = int(o.split("opens=")[1].split()[0]) if "opens=" in o else None
             expect_compile = n not in cached
-            if k in ("addA", "addAbad", "addAdisp"):
+            if k in ("addA", "addAbad", "addAdisp", "addAinc"):
                 ret = int(o.split()[1])
-                ok_expected = (k in ("addA", "addAdisp")) and (A not in final)
+                ok_expected = (k in ("addA", "addAdisp", "addAinc")) and (A not in final)
                 cached.add(A)
                 if ok_expected:
-                    added.append("always ab 123456" if k == "addA" else "display z 1346")
+                    added.append("always ab 123456" if k == "addA" else "display z 1346" if k == "addAdisp" else "include %s" % (work / "inc.uti"))
                 if ret != (1 if ok_expected else 0):
                     bad = ("add-result", "lou_compileString returned %d at step %d of %s, expected %d" % (ret, i, seq, 1 if ok_expected else 0))
                     break
